@@ -324,11 +324,13 @@ Fixpoint run (fx : fixes) (s : cst) (ops : list op) : cst * outcome :=
       end
   end.
 
-(* the ids this server asked for or registered itself, in a history *)
+(* the ids this server registered itself or asked a peer for, in a history; asking means
+   that the tree request was actually sent: a message whose request could not be sent
+   (sendok = false) asks nobody *)
 Definition asks (o : op) : list nat :=
   match o with
   | LRegister t | LCreate t => [t_id t]
-  | LMsg tid _ _ => [tid]
+  | LMsg tid _ true => [tid]
   | _ => []
   end.
 
